@@ -205,7 +205,7 @@ def run(ctx):
     # behaviour-preserving refactorings written by independent sub-agents (seeded/benign): the property's own four per round, and every one that
     # made this property's check raise a false alarm at first contact (seeded/benign/first_contact*.json) - all must stay silent
     bdir = os.path.join(VERIF, "seeded", "benign")
-    wanted = {os.path.basename(d) for d in glob.glob(os.path.join(bdir, prop + "_[rs][0-9]"))}
+    wanted = {os.path.basename(d) for d in glob.glob(os.path.join(bdir, prop + "_[rst][0-9]"))}
     for fc in glob.glob(os.path.join(bdir, "first_contact*.json")):
         wanted |= set(json.load(open(fc)).get("first_contact_false_alarms", {}).get(prop, []))
     for name in sorted(wanted):
